@@ -58,7 +58,18 @@ func (f *Fix) messenger(e *sim.Env) wasmkeeper.Messenger {
 
 // Payload builds a custom message of the given variant that the keepers accept on the fixture when no sender
 // guard interferes. `sender` is needed because two variants move funds of / to the calling contract.
-func (f *Fix) Payload(v string, sender sdk.AccAddress) bindings.ComdexMessages {
+// `named` is the address the payload's own address-like field carries (Auth.tla PaysOf): the caller, the designated contract
+// or a third account; nil = the variant's default.
+func (f *Fix) Payload(v string, sender, named sdk.AccAddress) bindings.ComdexMessages {
+	if named == nil {
+		named = sender
+		if v == "MsgBurnGovTokensForApp" {
+			named = f.LP
+		}
+		if v == "MsgFoundationEmission" {
+			named = f.Other
+		}
+	}
 	var m bindings.ComdexMessages
 	switch v {
 	case "MsgWhiteListAssetLocker":
@@ -96,7 +107,7 @@ func (f *Fix) Payload(v string, sender sdk.AccAddress) bindings.ComdexMessages {
 		m.MsgAddAuctionParams = &bindings.MsgAddAuctionParams{AppID: f.AppCswap, AuctionDurationSeconds: 1800, Buffer: d("1.2"), Cusp: d("0.7"),
 			Step: 360, PriceFunctionType: 1, SurplusID: 1, DebtID: 2, DutchID: 3, BidDurationSeconds: 600}
 	case "MsgBurnGovTokensForApp":
-		m.MsgBurnGovTokensForApp = &bindings.MsgBurnGovTokensForApp{AppID: f.AppHarbor, From: f.LP, Amount: coin("uharbor", 7*unit)}
+		m.MsgBurnGovTokensForApp = &bindings.MsgBurnGovTokensForApp{AppID: f.AppHarbor, From: named, Amount: coin("uharbor", 7*unit)}
 	case "MsgAddESMTriggerParams":
 		m.MsgAddESMTriggerParams = &bindings.MsgAddESMTriggerParams{AppID: f.AppCswap, TargetValue: coin("uharbor", 5*unit), CoolOffPeriod: 60,
 			AssetID: []uint64{f.CMST}, Rates: []uint64{1000000}}
@@ -104,11 +115,11 @@ func (f *Fix) Payload(v string, sender sdk.AccAddress) bindings.ComdexMessages {
 		m.MsgEmissionRewards = &bindings.MsgEmissionRewards{AppID: f.AppHarbor, Amount: i(1000 * unit), EmissionAmount: 0,
 			ExtendedPair: []uint64{f.EpCmdx}, VotingRatio: []sdk.Int{i(10)}}
 	case "MsgFoundationEmission":
-		m.MsgFoundationEmission = &bindings.MsgFoundationEmission{AppID: f.AppHarbor, Amount: i(100 * unit), FoundationAddress: []string{f.Other.String()}}
+		m.MsgFoundationEmission = &bindings.MsgFoundationEmission{AppID: f.AppHarbor, Amount: i(100 * unit), FoundationAddress: []string{named.String()}}
 	case "MsgRebaseMint":
-		m.MsgRebaseMint = &bindings.MsgRebaseMint{AppID: f.AppHarbor, Amount: i(100 * unit), ContractAddr: sender}
+		m.MsgRebaseMint = &bindings.MsgRebaseMint{AppID: f.AppHarbor, Amount: i(100 * unit), ContractAddr: named}
 	case "MsgGetSurplusFund":
-		m.MsgGetSurplusFund = &bindings.MsgGetSurplusFund{AppID: f.AppHarbor, AssetID: f.CMST, ContractAddr: sender, Amount: coin("ucmst", 1*unit)}
+		m.MsgGetSurplusFund = &bindings.MsgGetSurplusFund{AppID: f.AppHarbor, AssetID: f.CMST, ContractAddr: named, Amount: coin("ucmst", 1*unit)}
 	case "MsgEmissionPoolRewards":
 		m.MsgEmissionPoolRewards = &bindings.MsgEmissionPoolRewards{AppID: f.AppHarbor, CswapAppID: f.AppCswap, Amount: i(100 * unit),
 			Pools: []uint64{f.LPool}, VotingRatio: []sdk.Int{i(10)}}
@@ -120,8 +131,8 @@ func (f *Fix) Payload(v string, sender sdk.AccAddress) bindings.ComdexMessages {
 
 // Dispatch sends the custom message from `sender` on a context with the given chain id, with the atomicity the
 // wasm keeper gives a contract call (state written back only on success).
-func (f *Fix) Dispatch(e *sim.Env, chain string, sender sdk.AccAddress, v string) (res sim.Result) {
-	raw, err := json.Marshal(f.Payload(v, sender))
+func (f *Fix) Dispatch(e *sim.Env, chain string, sender, named sdk.AccAddress, v string) (res sim.Result) {
+	raw, err := json.Marshal(f.Payload(v, sender, named))
 	must(err)
 	cctx, write := e.Ctx.WithChainID(chain).CacheContext()
 	p, ps := noPanic(func() {
